@@ -5,12 +5,13 @@
  "restrict_fp": ["qb_log_real_va_.function_pointer_call.1/verif_old_log_fn", "qb_log_real_va_.function_pointer_call.2/verif_old_log_fn",
                  "qb_log_real_va_.function_pointer_call.3/verif_vlogger",
                  "qb_log_real_va_.function_pointer_call.4/verif_logger", "qb_log_real_va_.function_pointer_call.5/verif_logger"],
- "stubs": ["vsnprintf (three arbitrary characters, QB_XC marker absent/first/middle/last; returns 3)", "strchr (marker position from the ghost message)",
+ "stubs": ["vsnprintf (variants main/longline/oom: the empty message, returns 0; variant marker: three arbitrary characters, QB_XC marker absent/first/middle/last, returns 3)", "strchr (marker position from the ghost message)",
            "malloc (fresh or NULL)", "qb_log_thread_log_post (recorded)", "qb_util_timespec_from_epoch_get (any time)", "qb_atomic_int_* (sequential)"],
  "expect_classes": ["assertion"], "timeout": 300, "cbmc_flags": ["--slice-formula"],
- "variants": [{"vname": "main", "defines": ["-DV_MAIN", "-DVERIF_MALLOC_ALWAYS_FAILS"]},
-              {"vname": "longline", "defines": ["-DV_LONG"]},
-              {"vname": "oom", "defines": ["-DV_LONG", "-DV_OOM"]},
+ "variants": [{"vname": "main", "defines": ["-DV_MAIN", "-DVERIF_MALLOC_ALWAYS_FAILS", "-DVERIF_MSG_EMPTY"]},
+              {"vname": "marker", "defines": ["-DV_MAIN", "-DV_MARKER", "-DVERIF_MALLOC_ALWAYS_FAILS"]},
+              {"vname": "longline", "defines": ["-DV_LONG", "-DVERIF_MSG_EMPTY"]},
+              {"vname": "oom", "defines": ["-DV_LONG", "-DV_OOM", "-DVERIF_MSG_EMPTY"]},
               {"vname": "nullcs", "defines": ["-DV_NULLCS"]}]}
 */
 /* One log call, arbitrary configuration of all 32 target slots (state, threaded flag, callback kind, extended flag),
@@ -24,7 +25,8 @@
  *   - in_logger is released on every exit (otherwise every later log call is dropped).
  * Documented exception kept out of the claim: a message consisting only of extended information (QB_XC first) is not
  * handed to a target whose extended flag is off.
- *  main      all targets' line limits <= QB_LOG_MAX_LEN (stack buffer)
+ *  main      all targets' line limits <= QB_LOG_MAX_LEN (stack buffer); empty message text
+ *  marker    as main, message with the extended-information marker in every position, targets 0..3 only (the others unused)
  *  longline  some selected target has a longer line limit (heap buffer), allocation succeeds
  *  oom       ... allocation fails             [isolated: in_logger stays set -- genuine defect]
  *  nullcs    the call has no call site (NULL)   [isolated: in_logger stays set -- genuine defect] */
@@ -38,6 +40,9 @@ void harness(void)
 	int i;
 	int32_t st0[QB_LOG_TARGET_MAX], thr0[QB_LOG_TARGET_MAX], kind0[QB_LOG_TARGET_MAX], ext0[QB_LOG_TARGET_MAX];
 	ASSUME(nd_w < QB_LOG_TARGET_MAX && nd_active_max < QB_LOG_TARGET_MAX);
+#ifdef V_MARKER
+	ASSUME(nd_active_max < 4);
+#endif
 	struct qb_log_callsite *cs = verif_build_cs("f", "a.c", "m");
 	uint32_t targets0 = cs->targets, tags0 = cs->tags;
 	unsigned expect_total = 0;
@@ -108,14 +113,20 @@ void harness(void)
 	/* the successful allocation is variant longline */
 #else
 	COVER(selected && !thr0[nd_w] && (kind0[nd_w] & 2));
+#ifndef VERIF_MSG_EMPTY
 	COVER(selected && !thr0[nd_w] && kind0[nd_w] == 1 && verif_xc_pos > 0);
+	COVER(selected && only_extended_info && kind0[nd_w] == 1);
+#else
+	COVER(selected && !thr0[nd_w] && kind0[nd_w] == 1);
+#endif
 	COVER(selected && thr0[nd_w]);
 	COVER(!selected && st0[nd_w] == QB_LOG_STATE_ENABLED);
 	COVER(!selected && st0[nd_w] == QB_LOG_STATE_DISABLED && (targets0 & (1u << nd_w)));
+#ifndef V_MARKER
 	COVER(selected && nd_w == QB_LOG_TARGET_MAX - 1);
+#endif
 	COVER(selected && nd_w == nd_active_max);
 	COVER(expect_total >= 3);
-	COVER(selected && only_extended_info && kind0[nd_w] == 1);
 	if (selected && !thr0[nd_w]) {
 		if (kind0[nd_w] & 2) {
 			POST(verif_wit_vlogger_calls == 1 && verif_wit_logger_calls == 0, "an enabled selected target receives the message exactly once");
